@@ -15,6 +15,7 @@ Lemma LInv_step : forall c s l s', WF s -> (forall r q, getq s r = Some q -> LIn
 Proof.
   intros c s l s' W B H r0 q0 Hg.
   step_rq H Hg W.
+  all: f1_split.
   all: repeat match goal with Hq : getq _ _ = Some ?q |- _ =>
          lazymatch goal with _ : LInv q |- _ => fail | _ => pose proof (B _ _ Hq) end end.
   all: try solve [assumption].
